@@ -1,5 +1,6 @@
 //! unit: u07c
-//! properties: C07 C05
+//! properties: C07 C05 C06
+//! note: also run for C06: the code it constrains lies inside mechanisms those properties name (a change made there for their sake must meet these clauses too)
 //! note: sweeping recovered outputs (util/transaction_utils.rs maybe_add_change_output, used by spend_spendable_outputs / OutputSweeper): the requested outputs are kept, the transaction pays at least the requested feerate at the weight it reports, and whatever exceeds that goes to the change script unless it is below that script's dust value
 //! trusted: env: bitcoin types are skeletons: Amount(u64) with bitcoin::Amount's checked `+=` and `-` (they panic on overflow/underflow: obligations), comparison by value, MAX_MONEY = 21e14 sat; ScriptBuf opaque with an uninterpreted minimal_non_dust() (at most MAX_MONEY: bitcoin computes it from the script length); TxOut / Transaction field skeletons; Transaction::weight() is an uninterpreted function of the transaction *before* the change output is added (the function reads it once, before pushing); VarInt(n).size() is bitcoin's compact-size length (1/3/5/9 bytes); R8: `change_output.consensus_encode(&mut sink()).unwrap()` -> encoded_len(&change_output) (the serialized length of a TxOut: 8 + compact size + script length, bounded by 10_009 for a standard script)
 //! trusted: R15 (deep slices): SpendableOutputDescriptor::create_spendable_outputs_psbt: the TxIn built in each of the three arms (static payment output with its `sequence` statement, delayed payment output, static output) verbatim as functions of the descriptor; OutPoint::into_bitcoin_outpoint is re-declared (txid, index widened to u32); the duplicate test, the witness weights, the input value sum (MAX_MONEY test) and the PSBT assembly are dropped and not claimed
